@@ -261,6 +261,19 @@ def run(ctx):
         tot = sum(float(v) for v in frac.values())
         if abs(tot - 1.0) > 1e-9:
             ctx.violation("fitfrac:4body:partition:batch=%d" % b, {"sum": tot})
+    # one FitFractions object integrated again (another sample / changed parameters): the totals
+    # must start from zero every time
+    ff = fit_fractions(amp3, d3, res=res3, batch=7, method="new")
+    first, _ = ff.get_frac(error_matrix=None, sum_diag=False)
+    for rep in range(2):
+        ff.integral(d3, batch=N if rep else 4)
+        again, _ = ff.get_frac(error_matrix=None, sum_diag=False)
+        nff += 1
+        tot = sum(float(v) for v in again.values())
+        bad = [str(k) for k in first if abs(float(first[k]) - float(again[k])) > 1e-9 * max(1.0, abs(float(first[k])))]
+        if abs(tot - 1.0) > 1e-9 or bad:
+            ctx.violation("fitfrac:FitFractions.integral:repeated", {"sum": tot, "changed": bad[:4]})
+            break
     # through the configuration object
     frac, _ = cfg3.cal_fitfractions(mcdata=d3, res=res3, batch=7)
     tot = sum(float(v) for v in frac.values())
